@@ -22,7 +22,10 @@ CONSTANTS
   ReserveDefaultHeader,   \* TRUE: auto-populated header row is reserved
   BudgetContinuation,     \* TRUE: continuation headings at the top of a page are budgeted
   ChargeRenderedOnly,     \* TRUE: only headings that are rendered are charged, once
-  BorderByPage            \* TRUE: the closing border goes to the table row that really ends the page
+  BorderByPage,           \* TRUE: the closing border goes to the table row that really ends the page
+  TopOverrideByPosition   \* TRUE (as implemented): with a per-column / per-cell border_top the first data row of a page
+                          \* takes in display column k the k-th non-empty entry of border_top's first row (original
+                          \* column positions) instead of rtf_body.border_first
 
 VARIABLES cfg, d, phase, i, page, fill, pageOf, out
 vars == <<cfg, d, phase, i, page, fill, pageOf, out>>
@@ -154,6 +157,7 @@ RowsOf(p) == SelectSeq([k \in 1..cfg.n |-> k], LAMBDA k : pageOf[k] = p)
 Ev(k, p, r, lv, val, wt) == [k |-> k, p |-> p, r |-> r, lv |-> lv, val |-> val, wt |-> wt, est |-> wt, tag |-> r,
                             top |-> <<"">>, bot |-> <<"">>, lft |-> <<"single">>, rgt |-> <<"single">>]
 B(e, t, b) == [e EXCEPT !.top = <<t>>, !.bot = <<b>>]
+BV(e, t, b) == [e EXCEPT !.top = t, !.bot = b]        \* per displayed column
 
 \* ---- borders: PageFeatureProcessor._apply_pagination_borders, as implemented ----
 FootOn(c, p) == c.foot # "none" /\ Show(c.pfoot, p, P)
@@ -171,8 +175,14 @@ Bottom(c, p) ==
   ELSE IF p < P
        THEN IF ~(FootOn(c, p) \/ SrcOn(c, p)) THEN <<"data", c.bodylast>> ELSE <<Target(c, p), c.bodylast>>
        ELSE IF ~(FootTblLast(c) \/ SrcTblLast(c)) THEN <<"data", c.pagelast>> ELSE <<Target(c, p), c.pagelast>>
-DataTopB(c, p, first) == IF ~first THEN c.utop ELSE IF p = 1 /\ c.hdr = "none" THEN c.pagefirst ELSE c.bodyfirst
-DataBotB(c, p, last) == IF last /\ Bottom(c, p)[1] = "data" THEN Bottom(c, p)[2] ELSE c.ubot
+\* top and bottom edge of data row r, one entry per displayed column
+DataTopV(c, p, r, first) ==
+  IF ~first THEN UVec(c, c.utop, r)
+  ELSE IF p = 1 /\ c.hdr = "none" THEN StyleVec(c, c.pagefirst)
+  ELSE [k \in 1..Len(KeptIdx(c)) |->
+          IF TopOverrideByPosition /\ c.ushape # "scalar" /\ c.utop # "" /\ k <= Len(FrameCols(c)) /\ UPat(c, c.utop, 1, k) # ""
+          THEN UPat(c, c.utop, 1, k) ELSE c.bodyfirst]
+DataBotV(c, p, r, last) == IF last /\ Bottom(c, p)[1] = "data" THEN StyleVec(c, Bottom(c, p)[2]) ELSE UVec(c, c.ubot, r)
 
 RECURSIVE HeadEvents(_, _, _, _)
 \* spanning rows for levels from..nlev of row r (dividers skipped)
@@ -187,7 +197,7 @@ Body(c, p, rows, first) ==
            heads == IF ~Spanning(c) THEN <<>>
                     ELSE IF first THEN HeadEvents(c, p, r, 1)
                     ELSE IF c.chg[r] > 0 THEN HeadEvents(c, p, r, c.chg[r]) ELSE <<>>
-       IN heads \o << B(Ev("data", p, r, 0, "", c.h[r]), DataTopB(c, p, first), DataBotB(c, p, Len(rows) = 1)) >>
+       IN heads \o << BV(Ev("data", p, r, 0, "", c.h[r]), DataTopV(c, p, r, first), DataBotV(c, p, r, Len(rows) = 1)) >>
           \o Body(c, p, Tail(rows), FALSE)
 NHdr(c) == CASE c.hdr = "none" -> 0 [] c.hdr = "explicit2" -> 2 [] OTHER -> 1
 Blocks(c, p) ==
@@ -241,6 +251,7 @@ M_C07_DocTop == AllPos(C07_DocTop)
 M_C07_DocBottom == AllPos(C07_DocBottom)
 M_C07_PageBottom == AllPos(C07_PageBottom)
 M_C07_DataTop == AllPos(C07_DataTop)
+M_C07_DataTopModuloKnown == AllPos(C07_DataTopModuloKnown)
 M_C07_Interior == AllPos(C07_Interior)
 
 \* online algorithm: the page of a row never depends on later rows (model form of PrefixStable)
